@@ -16,7 +16,8 @@ Pick(S, k) ==   \* k elements of S starting at a seed-dependent index of its can
   IF S = {} THEN {}
   ELSE LET q == SetToSeq(S) n == Len(q)
        IN  {q[1 + ((Seed * 7919 + i * 104729) % n)] : i \in 1..k}
-RepValueChoices(g) == Pick(AllValueChoices(g), Reps)
+\* every fee-magnitude value choice is replayed (they are few); the others are sampled
+RepValueChoices(g) == IF g.big THEN AllValueChoices(g) ELSE Pick(AllValueChoices(g), Reps)
 RepBases(g, w) ==   \* prefer bases on which libsecp can compute every sum (the converse direction is exercised)
   LET A == AllBases(g, w)
       N == {bc \in A : ~Degenerate(bc.body, bc.ctx)}
